@@ -124,7 +124,7 @@ def _c07():
     qs = []
     def q(name, T, K, nops, cap, rot, dyn=0, ic=0, tiers=('quick', 'thorough'), timeout=900, U=3):
         qs.append(Q(name, 'c07_vyukov.cpp', mode='coro', T=T, K=K, defs={'NOPS': nops, 'CAP': cap, 'ROTMAX': rot, 'DYNAMIC_BUFFER': dyn, 'ITEM_COUNTER': ic, 'VERIF_T': T},
-                    spin={'do_enq|do_deq': U}, unwind=max(26, cap + 3), timeout=timeout, tiers=tiers, validate=6))
+                    spin={'do_enq|do_deq': U}, unwind=max(U, cap) + 3, unwind_fn={'linearizable': 26 if T * nops <= 4 else 122}, timeout=timeout, tiers=tiers, validate=6))
     q('vyukov_static_cap2_T2_n1_K4', 2, 4, 1, 2, 3)
     q('vyukov_dynamic_cap2_T2_n1_K4_ic', 2, 4, 1, 2, 1, dyn=1, ic=1)
     q('vyukov_static_cap2_T3_n1_K4', 3, 4, 1, 2, 2, tiers=('thorough',), timeout=3000)
@@ -138,6 +138,53 @@ CHECKS['C07'] = {
                 'sequential consistency only: weakening a memory_order is not detectable'],
     'assumptions': ['context switches only immediately before atomic operations (DRF-SC)',
                     'retry iterations of enqueue_with/dequeue_with are read-only on shared state; more than U retries per call are cut by assume (stutter-equivalent for safety)'],
+}
+
+
+# ---------------------------------------------------------------- C12
+def _c12():
+    qs = []
+    def seq_t(name, cap, nops, rot, dyn=0, reqcap=None, tiers=('quick', 'thorough'), timeout=900):
+        d = {'Q_SEQ_T': None, 'CAP': cap, 'NOPS': nops, 'ROT': rot, 'DYNAMIC_BUFFER': dyn}
+        if reqcap: d['REQCAP'] = reqcap
+        qs.append(Q(name, 'c12_ring.cpp', mode='seq', opt='O1', defs=d, unwind=max(nops, cap, rot) + 3, timeout=timeout, tiers=tiers, validate=10))
+    def seq_v(name, cap, nops, dyn=0, strict=0, tiers=('quick', 'thorough'), timeout=900):
+        d = {'Q_SEQ_V': None, 'CAP': cap, 'NOPS': nops, 'DYNAMIC_BUFFER': dyn}
+        if strict: d['STRICT_SPACE'] = None
+        qs.append(Q(name, 'c12_ring.cpp', mode='seq', opt='O1', defs=d, unwind=max(nops + 3, cap - 16 + 2), timeout=timeout, tiers=tiers, validate=10))
+    def coro_t(name, cap, np_, nc, K, rot, dyn=0, tiers=('quick', 'thorough'), timeout=900):
+        qs.append(Q(name, 'c12_ring.cpp', mode='coro', T=2, K=K, defs={'Q_CORO_T': None, 'CAP': cap, 'NP': np_, 'NC': nc, 'ROT': rot, 'DYNAMIC_BUFFER': dyn},
+                    unwind=max(cap, rot) + 3, unwind_fn={'linearizable': 26}, timeout=timeout, tiers=tiers, validate=6))
+    def coro_v(name, cap, np_, nc, K, dyn=1, tiers=('quick', 'thorough'), timeout=900):
+        qs.append(Q(name, 'c12_ring.cpp', mode='coro', T=2, K=K, defs={'Q_CORO_V': None, 'CAP': cap, 'NP': np_, 'NC': nc, 'DYNAMIC_BUFFER': dyn},
+                    unwind=cap - 16 + 3, unwind_fn={'linearizable': 26}, timeout=timeout, tiers=tiers, validate=6, object_bits=10))
+    seq_t('typed_seq_static_cap4_n5', 4, 5, 3)
+    seq_t('typed_seq_dynamic_req3_cap4_n5', 4, 5, 1, dyn=1, reqcap=3)
+    seq_t('typed_seq_static_cap8_n6', 8, 6, 5, tiers=('thorough',), timeout=3000)
+    seq_t('typed_seq_static_cap2_n8', 2, 8, 1, tiers=('thorough',), timeout=3000)
+    seq_v('void_seq_dynamic_cap32_n6', 32, 6, dyn=1)
+    seq_v('void_seq_static_cap32_n3', 32, 3, dyn=0)
+    seq_v('void_seq_static_cap32_n5', 32, 5, dyn=0, tiers=('thorough',), timeout=3000)
+    seq_v('void_seq_dynamic_cap32_n5_strict', 32, 5, dyn=1, strict=1)
+    seq_v('void_seq_dynamic_cap64_n6', 64, 6, dyn=1, tiers=('thorough',), timeout=3000)
+    seq_v('void_seq_dynamic_cap32_n8', 32, 8, dyn=1, tiers=('thorough',), timeout=3000)
+    coro_t('typed_coro_cap4_p1c1_K4', 4, 1, 1, 4, 3)
+    coro_t('typed_coro_cap4_p2c1_K5', 4, 2, 1, 5, 3)
+    coro_t('typed_coro_cap2_p1c2_K5_dyn', 2, 1, 2, 5, 1, dyn=1)
+    coro_t('typed_coro_cap4_p2c2_K6', 4, 2, 2, 6, 3, tiers=('thorough',), timeout=3000)
+    coro_t('typed_coro_cap4_p2c2_K8', 4, 2, 2, 8, 3, tiers=('thorough',), timeout=3000)
+    coro_v('void_coro_cap32_p1c1_K4', 32, 1, 1, 4)
+    coro_v('void_coro_cap32_p2c1_K5', 32, 2, 1, 5, tiers=('thorough',), timeout=3000)
+    coro_v('void_coro_cap32_p2c2_K7', 32, 2, 2, 7, tiers=('thorough',), timeout=3000)
+    return qs
+CHECKS['C12'] = {
+    'queries': _c12(), 'level': 'model_checking',
+    'outside': ['more than NOPS calls per script / NP+NC <= 4 concurrent calls; capacities other than 2,4,8 elements and 32,64 bytes',
+                'position counters near 2^64 (not reachable through the API)',
+                'record sizes with calc_real_size(size) >= capacity (back() documents/asserts real_size < capacity)',
+                'sequential consistency only: weakening a memory_order is not detectable', 'schedules with more than K-1 context switches',
+                'value types with non-trivial constructors/destructors (value_cleaner)'],
+    'assumptions': ['context switches only immediately before atomic operations (DRF-SC)', 'one producer thread and one consumer thread (the documented SPSC contract)'],
 }
 
 # ---------------------------------------------------------------- C01 / C03 (HP reclamation pass, sequentialised threads)
